@@ -184,6 +184,13 @@ func (Scenario) Run(c choice.Chooser, opt sim.Options) sim.Result {
 
 	cuts := f.cutPoints()
 	cellSeen := map[string]bool{}
+	if len(f.Bytes) > LargeLimit {
+		res.Count("files:large(cuts-around-buffer-boundaries-and-sampled)", 1)
+		res.Count("probe:large-file", 1)
+		if perCut > 2 {
+			perCut = 2
+		}
+	}
 	sigParts := []string{fname, fmt.Sprint(len(f.Bytes))}
 	for ci, cut := range cuts {
 		prefix := f.Bytes[:cut]
